@@ -20,7 +20,8 @@ RULE = ('Hypothesis cases: signer seed, message 0-512 bytes, tweak material (ran
         'level: make_adapter_witness + make_adapter_locks_pub/_prv + make_adapter_decrypt / decrypt_adapter and the '
         'deprecated single-script locks. non-trivial = unclamped or edge scalar, message >= 256 bytes or empty, or any '
         'corruption (every case enumerates > 1000 corruptions); distinct by the case parameters.'
-        ' Task sessions: two adapters, 2-5 check / decrypt (own or other scalar) operations in ONE run, each result compared with the reference in isolation; the deprecated single-script locks with every flag value.')
+        ' Task sessions: two adapters, 2-5 check / decrypt (own or other scalar) operations in ONE run, each result compared with the reference in isolation; the deprecated single-script locks with every flag value.'
+        ' sa + k L (k = 1..7) is presented to the adapter check.')
 ASSUMPTIONS = ['vt/ed25519_ref.py (RFC 8032 strict verification: canonical s < L) decides "valid signature"',
                '"another scalar" means clamp(t\') mod L != t mod L (DECRYPT clears bit 255 and works mod L)']
 
@@ -156,6 +157,15 @@ def check_op_level(seed, m, kind, raw, maker, msg_bits):
                     region = 'bit255' if (name in ('sa',) and bit == 255) else ('top-bits' if bit >= 252 and name == 'sa' else 'any')
                     fails.append(('adapter/%s/corrupted-%s-passes-the-check/%s' % (tag, name, region), 'bit %d' % bit))
                     break
+        # arithmetic aliases of sa: sa + k L names the same group element but is another 32-byte string (an altered sa)
+        for k in range(1, 8):
+            alias = E.scalar_int(sa) + k * L
+            if alias >= 2 ** 256:
+                break
+            g = check(alias.to_bytes(32, 'little'), R, m, Tpt, X)
+            if g == ('ok', [b'\xff']):
+                fails.append(('adapter/%s/corrupted-sa-passes-the-check/sa-plus-a-multiple-of-the-group-order' % tag, 'sa + %d L' % k))
+                break
     return fails
 
 
